@@ -395,6 +395,112 @@ theorem identity_spec (seqs : List (List Nat)) (t : Trace) (mode : IdMode) (m le
           refine ⟨h.1.symm, by omega, ?_, h.2.symm⟩
           intro hs; subst hs; exact hne rfl
 
+/-! ### symbols: the decode step against the trace -/
+
+/-- `get_symbols`: entry (row `k`, column `c`) is a gap iff the trace entry is a gap, otherwise the symbol
+`alphs[k][seqs[k][j]]` for the trace entry `j` — row `k` through its own alphabet -/
+theorem getSymbols_spec (alphs : List (List Char)) (seqs : List (List Nat)) (t : Trace) (sy : List (List (Option Char)))
+    (h : getSymbols alphs seqs t = .ok sy) :
+    All₂ (fun (p : List Char × (List Nat × Nat)) sr => All₂ (fun c s => DecodesTo p.1 (codeOf p.2.1 p.2.2 c) s) t sr)
+      (alphs.zip seqs.zipIdx) sy := by
+  unfold getSymbols at h
+  split at h
+  · cases h
+  · next codes hc =>
+    have h1 := decodeRows_spec alphs codes sy h
+    rw [codesFrom_spec t seqs 0 codes hc, List.zip_map_right] at h1
+    have h2 := All₂.map_left _ h1
+    refine h2.imp_mem ?_
+    intro p sr _ hp
+    exact All₂.map_left _ hp
+
+/-! ### pairwise identity -/
+
+/-- columns in which rows `i` and `j` carry the same code and no gap, counted column by column -/
+def specPairMatches (si sj : List Nat) (i j : Nat) (t : Trace) : Nat :=
+  (t.filter fun c => (codeOf si i c).isSome && codeOf si i c == codeOf sj j c).length
+
+theorem pairMatches_rows (f g : Col → Option Nat) (t : Trace) :
+    pairMatches (t.map f) (t.map g) = (t.filter fun c => (f c).isSome && f c == g c).length := by
+  unfold pairMatches
+  have : (t.map f).zip (t.map g) = t.map fun c => (f c, g c) := by
+    induction t with
+    | nil => rfl
+    | cons c t ih => simp [ih]
+  rw [this, List.filter_map, List.length_map]
+  rfl
+
+/-- `alignment[:, [i, j]]`: the two selected entries of every column -/
+theorem selectSeqs_pair (t : Trace) (i j : Nat) (sub : Trace) (h : selectSeqs t [i, j] = .ok sub) :
+    sub = t.map fun c => [(c[i]?).join, (c[j]?).join] := by
+  unfold selectSeqs at h
+  refine all₂_eq_map ((mapE_ok_forall₂ _ _ _ h).imp_mem ?_)
+  intro c r _ hr
+  simp only [mapE] at hr
+  cases hi : c[i]? with
+  | none => simp [hi] at hr
+  | some x =>
+    cases hj : c[j]? with
+    | none => simp [hi, hj] at hr
+    | some y => simp [hi, hj] at hr; simp [← hr]
+
+theorem pairLen_spec (seqs : List (List Nat)) (t : Trace) (mode : IdMode) (i j len : Nat)
+    (h : pairLen seqs t mode i j = .ok len) :
+    match mode with
+    | .all => len = t.length
+    | .notTerminal => ∃ a b, findTerminalGaps 2 (t.map fun c => [(c[i]?).join, (c[j]?).join]) = .ok (a, b) ∧ a < b ∧ len = b - a
+    | .shortest => len = Nat.min (seqs.getD i []).length (seqs.getD j []).length := by
+  cases mode with
+  | all => simp [pairLen] at h; exact h.symm
+  | shortest => simp [pairLen] at h; exact h.symm
+  | notTerminal =>
+    simp only [pairLen] at h
+    split at h
+    · cases h
+    · next sub hsub =>
+      rw [selectSeqs_pair t i j sub hsub] at h
+      split at h
+      · cases h
+      · next a b hab =>
+        split at h
+        · cases h
+        · simp at h; exact ⟨a, b, hab, by omega, h.symm⟩
+
+/-- `get_pairwise_sequence_identity`: an `n × n` matrix whose entry `(i, j)` is (columns where rows `i` and `j` carry the same
+code and no gap — counted column by column, the length of the mode for the pair) -/
+theorem pairIdentity_spec (seqs : List (List Nat)) (t : Trace) (mode : IdMode) (M : List (List (Nat × Nat)))
+    (h : pairIdentity seqs t mode = .ok M) :
+    M.length = seqs.length ∧ ∀ i j (hi : i < seqs.length) (hj : j < seqs.length),
+      ∃ len, pairLen seqs t mode i j = .ok len ∧
+        (M[i]?).bind (·[j]?) = some (specPairMatches seqs[i] seqs[j] i j t, len) := by
+  unfold pairIdentity at h
+  split at h
+  · cases h
+  · next codes hc =>
+    have hcodes := codesFrom_spec t seqs 0 codes hc
+    have hn : codes.length = seqs.length := by rw [hcodes]; simp
+    have hrow : ∀ i (hi : i < seqs.length), codes.getD i [] = t.map (codeOf seqs[i] i) := by
+      intro i hi
+      rw [hcodes]
+      simp [List.getD, hi]
+    have hF := mapE_ok_forall₂ _ _ _ h
+    refine ⟨by rw [← hF.length_eq]; simp [hn], ?_⟩
+    intro i j hi hj
+    obtain ⟨row, hrowi, hR⟩ := hF.get i i (by simp [hn, hi])
+    have hG := mapE_ok_forall₂ _ _ _ hR
+    obtain ⟨e, hej, hE⟩ := hG.get j j (by simp [hn, hj])
+    split at hE
+    · cases hE
+    · next len hlen =>
+      simp at hE
+      refine ⟨len, hlen, ?_⟩
+      have e1 := hrow i hi
+      have e2 := hrow j hj
+      rw [List.getD_eq_getElem?_getD] at e1 e2
+      rw [hrowi]
+      simp only [Option.bind_some, hej, ← hE, e1, e2, pairMatches_rows]
+      rfl
+
 /-! ### score -/
 
 def isum : List Int → Int
